@@ -80,10 +80,11 @@ def _setorder(ctx):
         construct = par if isinstance(par, (ast.expr, ast.For)) else n
         if isinstance(construct, ast.For):
             construct = "for {} in {}".format(short(construct.target, 30), short(construct.iter, 80))
+        del construct
         ctx.ob(
             "C10.setorder",
             where,
-            construct,
+            "`{}` -> {}".format(short(n, 50), why),
             False,
             "{} value `{}` reaches an order-sensitive context: {}".format(
                 "set-typed" if k == "set" else "hash-ordered", short(n, 50), why
